@@ -555,8 +555,13 @@ pub fn run_history(case: &Case, ctx: &Ctx, mode: Mode) -> (Outcome, Trajectory) 
                 if valid.is_empty() || live.is_empty() {
                     Res::Skipped
                 } else {
-                    let ci = valid[*sel as usize % valid.len()];
-                    let ri = live[*hsel as usize % live.len()];
+                    // (selectors close to u32::MAX count from the end: MAX = the newest)
+                    let from_end = |sel: u32, n: usize| -> usize {
+                        let back = (u32::MAX - sel) as usize;
+                        if back < 16 { n - 1 - back.min(n - 1) } else { sel as usize % n }
+                    };
+                    let ci = valid[from_end(*sel, valid.len())];
+                    let ri = live[from_end(*hsel, live.len())];
                     let Cp::Transparent { cp, born, .. } = &cps[ci] else { unreachable!() };
                     let born = *born;
                     let ret_ptr = hs[ri].ptr;
@@ -1050,6 +1055,40 @@ pub fn gen_ops(rng: &mut Rng, mode: Mode, thorough: bool) -> Vec<Op> {
         ops.push(op);
         let _ = &cfg;
     }
+    // motif (1/8 of the histories): a value-preserving restore whose savings come from pair and
+    // atom SLOTS only - 128..200 pairs or heap-less slices after the checkpoint - and whose
+    // preserved node is (mostly) the one small heap atom made after them
+    if rng.chance(1, 8) {
+        let mut m: Vec<Op> = Vec::new();
+        let n0 = 40 + rng.usize(60);
+        m.push(Op::NewAtom(rng.bytes(n0)));
+        m.push(Op::TCheckpoint);
+        for _ in 0..rng.usize(3) {
+            m.push(Op::NewSubstr(rng.next_u64() as u32, rng.next_u64() as u32, rng.next_u64() as u32, true));
+        }
+        let bulk = 128 + rng.usize(72);
+        let pairs = rng.bool();
+        for _ in 0..bulk {
+            if pairs || rng.chance(1, 10) {
+                m.push(Op::NewPair(rng.next_u64() as u32, rng.next_u64() as u32));
+            } else {
+                m.push(Op::NewSubstr(rng.next_u64() as u32, rng.next_u64() as u32, rng.next_u64() as u32, true));
+            }
+        }
+        match rng.below(4) {
+            0 => {}
+            1 => m.push(Op::NewConcat(vec![rng.next_u64() as u32, rng.next_u64() as u32], 0)),
+            _ => {
+                let n = 5 + rng.usize(44);
+                m.push(Op::NewAtom(rng.bytes(n)));
+            }
+        }
+        m.push(Op::MaybeRestore(u32::MAX, if rng.chance(3, 4) { u32::MAX } else { rng.next_u64() as u32 }));
+        let at = rng.usize(ops.len() + 1);
+        let tail = ops.split_off(at);
+        ops.extend(m);
+        ops.extend(tail);
+    }
     ops
 }
 
@@ -1211,13 +1250,22 @@ impl Scenario for C14 {
             };
         }
         let mut ops = gen_ops(rng, Mode::C14, tier == Tier::Thorough);
-        if ops.len() > 60 {
+        // histories with the slots-only restore motif (> 130 calls) are kept whole and read back
+        // every 16th call (and after the last one); the others are capped at 60 calls
+        let long = ops.len() > 130;
+        if !long && ops.len() > 60 {
             ops.truncate(60);
         }
         Case {
-            heap_limit: if rng.chance(1, 4) { 1 + rng.below(3000) } else { u32::MAX as u64 },
+            heap_limit: if !long && rng.chance(1, 4) { 1 + rng.below(3000) } else { u32::MAX as u64 },
             ops,
-            readback_every: if tier == Tier::Thorough || rng.chance(1, 2) { 1 } else { 4 },
+            readback_every: if long {
+                16
+            } else if tier == Tier::Thorough || rng.chance(1, 2) {
+                1
+            } else {
+                4
+            },
         }
     }
     fn execute(case: &Case, ctx: &Ctx) -> Outcome {
